@@ -9,7 +9,8 @@ From Coq Require Import List NArith Bool Arith.
 From Coq Require Strings.String.
 Import Coq.Strings.String.StringSyntax.
 From Acg Require Import Base.Outcome Base.Str Model.RevmTree Model.Revm Model.RevmVM
-  Model.RevmComp Proofs.RevmFrag Proofs.RevmCompCorrect Proofs.RevmTop Proofs.RevmTargets.
+  Model.RevmComp Model.RevmShape Proofs.RevmFrag Proofs.RevmCompCorrect Proofs.RevmTop Proofs.RevmTargets
+  Proofs.RevmLabels Proofs.RevmTrSpec Proofs.RevmRelabel Proofs.RevmShape Proofs.RevmCpp.
 Import ListNotations.
 Open Scope N_scope.
 
@@ -23,13 +24,13 @@ Definition anchored_of (mid : list term) : regex :=
 Definition t_star_star : regex :=
   anchored_of [star (VGroup (UCons (CCons (star (VChar 97)) CNil) UNil))].
 (** the pattern ^(ab|c)+[^x-z]{2,3}. * $ , here with the . * $ shortcut *)
-Definition t_mixed : regex :=
-  anchored_of
+Definition mixed_mid : list term :=
     [Term (VGroup (UCons (CCons (lit 97) (CCons (lit 98) CNil))
                   (UCons (CCons (lit 99) CNil) UNil)))
           (Some (mkQ false 1%nat None));
      Term (VSet true [(120, Some 122)]) (Some (mkQ false 2%nat (Some 3%nat)));
      star (VSym SDot)].
+Definition t_mixed : regex := anchored_of mixed_mid.
 (** [^a^b$] *)
 Definition t_inner_start : regex := anchored_of [lit 97; t_start; lit 98].
 (** [^a+?$] *)
@@ -61,26 +62,33 @@ Theorem C18_comp_regex_correct : forall c mid w,
 Proof. exact comp_regex_correct. Qed.
 Print Assumptions C18_comp_regex_correct.
 
-(** ** 3. translate_correct.
-    Full statement (NOT proved in general; false without [greedy r], see 4.):
-      forall r w, fe_accepts r = true -> greedy r = true -> quantifier bounds ordered ->
-        exists p, program r = Ok p /\ (no_linebreak w -> (vm_accepts p w <-> matches w r)).
-    Proved: the statement under the side condition [program r = Ok (comp_regex r)]
-    (the labelled translation with [_relabel_in_place] and [_remove_noop_in_place]
-    produces the label-free compilation). The side condition is decidable; it is
-    evaluated inside Coq for every tree of the correspondence stream on every run
-    (stream "comp") and proved below for the sample trees. Missing: the general
-    syntactic lemma [program r = Ok (comp_regex r)] for all accepted trees. *)
-Theorem C18_translate_correct_partial : forall c mid p w,
-  terms_of c = t_start :: mid ++ [t_end] -> forallb okt mid = true ->
-  greedy (UCons c UNil) = true ->
-  program (UCons c UNil) = Ok p -> p = comp_regex (UCons c UNil) ->
-  no_linebreak w ->
-  (vm_accepts p w <-> matches w (UCons c UNil)).
-Proof.
-  intros c mid p w H1 H2 _ _ Hp H3. rewrite Hp. exact (comp_regex_correct c mid w H1 H2 H3).
-Qed.
-Print Assumptions C18_translate_correct_partial.
+(** ** 3. translate_correct — full.
+    [accepted_shape r]: r = [^ mid $] where the terms of [mid] contain no start anchor,
+    have ordered quantifier bounds and character sets with ordered, pairwise disjoint
+    ranges (what the parser builds and the front end lets through); [greedy r]: no
+    non-greedy quantifier (the translator refuses those, see 4.).
+
+    First the syntactic heart: the labelled translation ([_Translator] with its label
+    counter), [_relabel_in_place], [_remove_noop_in_place] and the flattening produce
+    exactly the label-free compilation. Proved in three stages: (1) per constructor, the
+    labelled code resolves to [comp_*] under any resolution that sends each label to the
+    number of real leaves before its definition ([Proofs/RevmTrSpec.v]); (2) the reversed
+    loop of [_relabel_in_place] computes that resolution, its assertion and dict lookups
+    cannot fail ([Proofs/RevmRelabel.v]); (3) no-op removal + flattening. *)
+Theorem C18_program_is_comp : forall r, accepted_shape r -> greedy r = true ->
+  program r = Ok (comp_regex r).
+Proof. exact program_comp_regex. Qed.
+Print Assumptions C18_program_is_comp.
+
+(** The program emitted for an accepted greedy anchored pattern accepts a word without
+    line breaks iff the pattern fully matches it. All trees, all words; no side condition
+    (the stream "comp" still evaluates [program t = comp_regex t] per tree as a cross-check
+    of the model against the real translator). *)
+Theorem C18_translate_correct : forall r, accepted_shape r -> greedy r = true ->
+  exists p, program r = Ok p
+            /\ forall w, no_linebreak w -> (vm_accepts p w <-> matches w r).
+Proof. exact translate_correct. Qed.
+Print Assumptions C18_translate_correct.
 
 Example C18_side_condition_star_star :
   program t_star_star = Ok (comp_regex t_star_star)
@@ -93,6 +101,14 @@ Example C18_side_condition_mixed :
   program t_mixed = Ok (comp_regex t_mixed) /\ targets_ok (comp_regex t_mixed) = true.
 Proof. vm_compute. split; reflexivity. Qed.
 Print Assumptions C18_side_condition_mixed.
+
+Example C18_accepted_shape_mixed : accepted_shape t_mixed /\ greedy t_mixed = true.
+Proof.
+  split; [|vm_compute; reflexivity].
+  exists (concat_of_terms (t_start :: mixed_mid ++ [t_end])), mixed_mid.
+  split; [reflexivity|]. split; vm_compute; reflexivity.
+Qed.
+Print Assumptions C18_accepted_shape_mixed.
 
 (** non-vacuity of 2./3.: the hypotheses hold for [t_mixed] and the word "abcab!!zzz"
     is matched (so it is accepted by the program), "ab" is not *)
@@ -111,22 +127,22 @@ Example C18_nonvacuous :
 Proof. vm_compute. repeat split; reflexivity. Qed.
 Print Assumptions C18_nonvacuous.
 
-(** ** 4. translate_total / labels_wf.
-    Full statement of totality, as the property demands it:
-      translate_total : fe_accepts r = true -> exists p, translate r = Ok p
-    It is REFUTED for the code as it is: a pattern with a non-greedy quantifier passes the
-    front end and [transform_regex] raises [NotImplementedError] (known finding
-    [nongreedy-notimplemented]; the repair would edit a pinned test case).
-    NOT proved: totality under the additional hypothesis [greedy r = true] (it follows
-    from the missing syntactic lemma of 3.). *)
-(** labels_wf, proved for the label-free program of every anchored pattern: every
-    jump/split target is an index of the program (so the validation loop at the top of
-    the C++ [Match] never throws and [Spawn] never indexes outside [has_]). *)
-Theorem C18_labels_wf_partial : forall c mid,
-  terms_of c = t_start :: mid ++ [t_end] -> forallb okt mid = true ->
-  targets_ok (comp_regex (UCons c UNil)) = true.
-Proof. exact comp_regex_targets_ok. Qed.
-Print Assumptions C18_labels_wf_partial.
+(** ** 4. translate_total / labels_wf — full for greedy patterns.
+    The translation of an accepted greedy pattern never raises (none of the assertions,
+    icontract preconditions, dict lookups of [revm.py] can fire), and every jump/split
+    target of the emitted program is an index of the program (so the validation loop at
+    the top of the C++ [Match] never throws and [Spawn] never indexes outside [has_]).
+    Without [greedy r] totality is REFUTED for the code as it is
+    ([C18_translate_total_refuted], known finding [nongreedy-notimplemented]). *)
+Theorem C18_translate_total : forall r, greedy r = true -> accepted_shape r ->
+  (exists out, translate r = Ok out) /\ forall k, program r <> Crash k.
+Proof. exact translate_total. Qed.
+Print Assumptions C18_translate_total.
+
+Theorem C18_labels_wf : forall r, accepted_shape r -> greedy r = true ->
+  exists p, program r = Ok p /\ targets_ok p = true.
+Proof. exact labels_wf. Qed.
+Print Assumptions C18_labels_wf.
 
 Theorem C18_inner_start_rejected_by_front_end :
   translate t_inner_start = Crash AssertionError /\ fe_accepts t_inner_start = false
@@ -147,18 +163,47 @@ Proof. exact consumes_set. Qed.
 Print Assumptions C18_set_instruction_sound.
 
 (** ** 6. the generated C++ matcher.
-    Full statements (NOT proved in general):
-      cpp_match_refines    : cpp_match true fuel p w = Ok b -> (b = true <-> vm_accepts p w)
-      cpp_match_terminates : targets_ok p = true -> constructible p = true ->
-                             exists fuel, cpp_match true fuel p w <> Crash OutOfFuel
-                             (a _partial form for [eps_cyclic p = false] is NOT proved)
-    (validated by the "cpp-model" stream against re.fullmatch and by the compiled
-    matcher). Proved: termination is REFUTED for the matcher as shipped, where
+    [ranges_bsearch_correct] — full: on ranges as the C++ constructors accept them (sorted,
+    pairwise disjoint, ordered bounds) [CharacterInRanges] (1-range shortcut, binary search
+    with the <= 3 linear scan) returns exactly the membership. *)
+Theorem C18_ranges_bsearch_correct : forall rs c,
+  cpp_ranges_ok rs = true -> bounds_ok rs = true ->
+  char_in_ranges rs c = Some (in_rs c rs).
+Proof. exact char_in_ranges_correct. Qed.
+Print Assumptions C18_ranges_bsearch_correct.
+
+(** [cpp_match_refines], full statement (NOT proved in general):
+      cpp_match true fuel p w = Ok b -> (b = true <-> vm_accepts p w).
+    Proved (hence [_partial]): the direction for the verdict [true], for EVERY program,
+    word, fuel and both variants of [Pop] — when the matcher returns true, some thread of
+    the documented semantics reaches [match]. Missing: the verdict [false] (closure of the
+    set of popped program counters under epsilon-steps; needs a ghost "processed" set) and
+    termination for epsilon-acyclic programs; both are only validated (streams
+    "cpp-model", "cpp-loop", "cpp").
+      cpp_match_terminates : REFUTED for the matcher as shipped, where
     [ThreadList::Pop] clears [has_]: on the program of t_star_star (an epsilon-cycle
     0 -> 1 -> 4 -> 0) and the word "a" the loop is still running after 5000
     iterations of one phase (the compiled C++ never returns: known finding
     [cpp-match-epsilon-cycle-nontermination], see docs/C18.md), whereas
     with the flag kept until [Clear] it answers within [enough_fuel]. *)
+Theorem C18_cpp_match_refines_partial : forall cop fuel p w,
+  cpp_match cop fuel p w = Ok true -> vm_accepts p w.
+Proof. exact cpp_match_true_accepts. Qed.
+Print Assumptions C18_cpp_match_refines_partial.
+
+(** end-to-end corollary: if the generated matcher answers true on the program emitted
+    for an accepted greedy pattern, the pattern fully matches the word *)
+Theorem C18_cpp_true_implies_match : forall r p fuel w,
+  accepted_shape r -> greedy r = true -> program r = Ok p -> no_linebreak w ->
+  cpp_match true fuel p w = Ok true -> matches w r.
+Proof.
+  intros r p fuel w Hs Hg Hp Hw Hc.
+  destruct (translate_correct r Hs Hg) as [p' [Hp' Hiff]].
+  rewrite Hp in Hp'. inversion Hp'; subst p'. apply (Hiff w Hw).
+  exact (cpp_match_true_accepts true fuel p w Hc).
+Qed.
+Print Assumptions C18_cpp_true_implies_match.
+
 Theorem C18_cpp_match_terminates_refuted :
   exists p w, program t_star_star = Ok p
     /\ eps_cyclic p = true
